@@ -158,6 +158,16 @@ func vfDamagedExtension(kind string) ([]byte, []string) {
 		intended = nil
 	case "mixedfamily":
 		fams = []vfFam{{[]byte{0, 2, 1}, []asn1.BitString{{Bytes: []byte{0x20, 0x01}, BitLength: 16}}}, {[]byte{0, 1, 1}, []asn1.BitString{good}}}
+	case "familyempty":
+		// the address-family octet string is damaged: empty, or a single octet - not an IPv4 family, so nothing is granted
+		fams = []vfFam{{[]byte{}, []asn1.BitString{good}}}
+		intended = nil
+	case "family1":
+		fams = []vfFam{{[]byte{0}, []asn1.BitString{good}}}
+		intended = nil
+	case "family1b":
+		fams = []vfFam{{[]byte{1}, []asn1.BitString{good}}}
+		intended = nil
 	case "emptylist":
 		fams = []vfFam{{[]byte{0, 1, 1}, nil}}
 		intended = nil
@@ -262,7 +272,7 @@ func genIPCertPlan(r *mrand.Rand, tier string) *vfPlan {
 		case x < 65:
 			add(vfStep{Op: "certgen", Sess: "node", User: ident, A: pick(r, []string{"", "x509"}), B: "user_p256_1", C: "cert:last:ipcert", Target: pick(r, peers)})
 		case x < 80:
-			add(vfStep{Op: "badcert", A: pick(r, []string{"bitlen33", "bitlen40", "bitlen64", "zero", "family6", "mixedfamily", "emptylist", "longlist", "garbage", "truncated", "nested", "shortbytes"}),
+			add(vfStep{Op: "badcert", A: pick(r, []string{"bitlen33", "bitlen40", "bitlen64", "zero", "family6", "mixedfamily", "familyempty", "family1", "family1b", "emptylist", "longlist", "garbage", "truncated", "nested", "shortbytes"}),
 				Target: pick(r, []string{"10.20.30.40", "10.21.0.1", "11.0.5.9", "203.0.113.5", "2001:db8::5", "10.20.255.255"}), B: pick(r, []string{"refresh", "refresh", "certgen"})})
 		case x < 92:
 			d := pick(r, []string{"1h", "24h", "240h", "1079h", "1081h", "500h"})
